@@ -233,9 +233,13 @@ func (cp *CollectingProcess) decodePacket(packetBuffer *bytes.Buffer, exportAddr
 	exportAddress = strings.Replace(exportAddress, "]", "", -1)
 	message.SetExportAddress(exportAddress)
 
+	// The length of a set includes its header.
+	if int(setLen) < entities.SetHeaderLen {
+		return nil, fmt.Errorf("invalid set length %d: it is smaller than the set header", setLen)
+	}
 	// The set ends where its length field says, not where the message ends: what follows it
 	// (further sets, which are not supported) must not be taken for its content.
-	if n := int(setLen) - entities.SetHeaderLen; n >= 0 && n < packetBuffer.Len() {
+	if n := int(setLen) - entities.SetHeaderLen; n < packetBuffer.Len() {
 		packetBuffer = bytes.NewBuffer(packetBuffer.Next(n))
 	}
 
